@@ -708,6 +708,78 @@ mod part_b {
         }
     }
 
+    /// Two on-demand regions of DIFFERENT domains in one guest memory, accessed alternately from one
+    /// thread with windows of equal and of different sizes: every window requested from the device
+    /// must name the domain (and the pages) of the region the access touches.
+    fn two_domains(seed: u64) {
+        let emu = Emu::install(8 << 20);
+        let mut r = Rng::new(seed, "c17-domains", 0);
+        // (guest base, size, domain), sorted by guest base - the last two adjacent, so that one guest-level access can span both
+        let specs = [(48 * PAGE, 2 * 4096usize, 9u32), (32 * PAGE | (1 << 63), 3 * 4096, 3), (35 * PAGE | (1 << 63), 3 * 4096, 5)];
+        let mut regs = vec![];
+        for (gb, size, dom) in specs {
+            let range = MmapRange::new(size, Some(emu.file_offset(0)), GuestAddress(gb), 0x2 | 0x8, dom);
+            let region = MmapRegion::<()>::from_range(range).expect("xen region");
+            regs.push(GuestRegionMmap::new(region, GuestAddress(gb)).expect("guest region"));
+        }
+        let gm = GuestMemoryMmap::from_regions(regs).unwrap();
+        let owner = |index: u64| {
+            specs
+                .iter()
+                .find(|(gb, size, _)| {
+                    let fo = gb & !(1 << 63);
+                    index >= fo && index < fo + *size as u64
+                })
+                .map(|s| s.2)
+        };
+        let mut n = 0u64;
+        for step in 0..400u64 {
+            let which = if step % 2 == 0 { step as usize / 2 % 3 } else { r.usize_below(3) };
+            let (gb, size, _) = specs[which];
+            // equal window sizes on consecutive steps (same page count), now and then another size
+            let len = if step % 7 == 6 { 1 + r.usize_below(2 * 4096) } else { 8 };
+            let off = r.usize_below(size - len.min(size - 1));
+            let len = len.min(size - off);
+            emu.clear();
+            let data = vec![step as u8 | 1; len];
+            let res = guarded(|| match step % 3 {
+                0 => gm.write(&data, GuestAddress(gb + off as u64)).is_ok(),
+                1 => {
+                    let mut b = vec![0u8; len];
+                    gm.read(&mut b, GuestAddress(gb + off as u64)).is_ok()
+                }
+                _ => gm
+                    .get_slice(GuestAddress(gb + off as u64), len)
+                    .map(|s| {
+                        let _g = s.ptr_guard();
+                        true
+                    })
+                    .unwrap_or(false),
+            });
+            let xlog = emu.take_log();
+            if res.is_err() {
+                v("ondemand/two-domains/panic", jobj! {"step" => step});
+                return;
+            }
+            for x in &xlog {
+                if let XEv::Map { index, count, domid, .. } = x {
+                    let want = owner(*index);
+                    let last = owner(*index + (*count as u64 - 1) * PAGE);
+                    if want != Some(*domid) || last != Some(*domid) {
+                        v("ondemand/two-domains/window-names-another-domain-than-the-region-accessed", jobj! {"step" => step, "guest_offset_of_window" => *index, "pages" => *count, "domain_in_request" => *domid, "domain_of_the_region" => J::dbg(&want), "access_len" => len});
+                        return;
+                    }
+                    n += 1;
+                }
+            }
+        }
+        out::key("ondemand|two-domains|alternating-windows", true);
+        out::count("two_domain_windows_checked", n as i128);
+        out::eval(n);
+        drop(gm);
+        drop(emu);
+    }
+
     /// The environment refuses to build the temporary window (the grant ioctl or the window's
     /// mmap fails): the access must not go ahead without one. Refusing by error or by panic are
     /// both "no access"; touching memory at the region's placeholder address is not.
@@ -772,6 +844,7 @@ mod part_b {
         }
         if args.shard().0 == 0 {
             window_cannot_be_built(args.seed());
+            two_domains(args.seed());
         }
         let nops = args.u64("ops", 30);
         let mut opcount = 0u64;
